@@ -20,6 +20,12 @@ CLAIMED = {
  "C02": dict(
    text="utils.RestoreRdbEntry with restoreBigRdbEntry, restoreQuicklistEntry, flushAndCheckReply, CompareVersion and the rdb reader helpers run from SSA against a model target: plain RESTORE route (policy x REPLACE support x pre-existing key x six version strings x expiry past/future/none x three ShiftTime values, symbolic payload, ttl, idle, freq), element route for 14 value skeletons (classic types, ziplist list/hash/zset with every entry encoding class, intset widths, zipmap incl. zmlen 254 and free bytes, quicklist, integer strings) with symbolic contents, chunked hashes, quicklist route, Bad-data-format fallback, Lua, flush-batch sizes; the model key must hold the source's logical value and ttl, policies none/ignore must leave the target untouched",
    note=NOTE_COMMON + "the model target (tiny Redis) is trusted; the clock is a fixed instant with a symbolic ExpireAt (a symbolic clock needs 64-bit division by 10^6 that no back end decides); zset scores from a concrete list; counterexamples replayed by engine-concrete re-execution (stubbed clock); one known finding (chunked hash + ignore)"),
+ "C03": dict(
+   text="source side: parseSourceCommand runs on the real RESP decoder over streams built from 14 command templates (SELECT in both letter cases, single/multi-key writes, PING, MULTI/EXEC, sentinel hello, script commands, opinfo, unknown) x 8 filter/target.db/resume configurations with symbolic keys, values, prefixes and start offset; the forwarded items, replayed with a current-database register, must be exactly the surviving commands with byte-identical argv, database and offset. Target side: sendTargetCommand with a producer, a ticker channel fed at a symbolic point and the model target under every interleaving (preemption bound 1, thorough 2): commands sent = items received minus source MULTI/EXEC, in order; nothing left unflushed two ticks after the stream went idle; no empty flush; barrier automaton table",
+   note=NOTE_COMMON + "well-formed master histories; k <= 2 commands quick (3 thorough); metric/latency statistics stubbed; channel FIFO semantics are the engine's; schedule-dependent counterexamples replayed by engine-concrete re-execution"),
+ "C04": dict(
+   text="sendTargetCommand with resume enabled against the model target (MULTI/EXEC semantics): every flushed group is MULTI, commands, [run id, version], offset, EXEC with the offset of the group's last command, never spanning a SELECT, flushes end on group boundaries; the recorded Send trace is cut at EVERY position and replayed into a fresh model: applied data commands = items with Offset <= stored offset; restart leg: LoadCheckpoint reads back exactly what the sender stored and a resumed parser first re-selects the recorded database",
+   note=NOTE_COMMON + "cuts fall between commands (a partially received command equals not received); k <= 2 items quick (3 thorough); every tick/arrival interleaving within the preemption bound"),
  "C09": dict(
    text="ring offset lemmas (roffset/woffset) for arbitrary 64-bit positions; one-step refinement of memBuffer/fileBuffer readSome/writeSome from an arbitrary valid symbolic state against a ghost stream; sequential close rules on the real pipe; protocol runs with a writer goroutine and the reader in the main goroutine where every interleaving at mutex/cond/channel granularity (preemption bound 2, thorough 3) is a branch of the search, with deadlock detection and an explicit hand-shake so that wake-up must come from progress, not from close",
    note=NOTE_COMMON + "concrete ring sizes in the lemmas (a symbolic size is not decided within 60 s by any back end); step lemmas on an 8-byte ring; stream-length induction on paper; sync.Mutex/Cond/WaitGroup are engine primitives; schedule-dependent counterexamples are replayed by engine-concrete re-execution"),
